@@ -666,6 +666,11 @@ class World:
     def _note_lock(self, what, path, vt):
         self.effects += 1
         base = os.path.basename(path)
+        if what == "release" and base == "cluster_config.json.lock" and getattr(vt, "pause_next_release", 0):
+            # a process asked (by a check) to be slow right after it leaves the critical section it is in
+            vt.paused_until = self.steps + vt.pause_next_release
+            self.note("pause", thread=vt.name, steps=vt.pause_next_release, after=base)
+            vt.pause_next_release = 0
         if what == "release" and getattr(vt, "own_pauses", None):
             # pause rules attached to this very process when it was spawned (an operator command issued at a chosen moment)
             vt.n_own_rel = getattr(vt, "n_own_rel", 0) + 1
